@@ -12,18 +12,22 @@ TECHNIQUE = ("Coq proof over the reals: case analysis on the snap-to-grid test (
              "floor/ceil bracketing, frame lemmas over the C01 ring model, algebraic round trips of the generated "
              "interp_*/extrap_* kernels; model tied to the code by kernel translation and differential correspondence")
 LEVEL_TEXT = ("Machine-checked proof (Coq, real-number reading) that the model of RecordTensor.select/insert returns / writes "
-              "exactly the stored observation when the time is within tolerance of a multiple of dt and otherwise applies the "
+              "exactly the stored observation when the time is within tolerance of a multiple of dt (the coded round/tolerance test "
+              "is shown equivalent to 'some grid point is within tolerance', for every tolerance) and otherwise applies the "
               "interpolation (extrapolation) to the older and newer bracketing samples with the time elapsed since the older one, "
               "touches no other slot, rejects exactly the times outside [-tol, dt(N-1)+tol], that the scalar-time and tensor-time "
-              "branches agree element-wise, and that insert followed by select at the same time returns the inserted value for "
-              "every shipped matching extrapolation/interpolation pair; for all N, pointer positions, offsets, shapes, dt>0, "
-              "0<=tol<dt/2.")
-LEVEL_NOTE = ("Trusted: Coq kernel + stdlib real axioms; translator for _unwind_ptr and the 6+8 interp/extrap kernels; the "
-              "hand-written model C02/Select.v (validated against the real class by correspondence only: generator coverage); "
-              "torch gather/scatter/where/round/remainder modelled by their meaning; `x % 1` read as x - floor x. "
-              "NOT proved: floating-point rounding (theorems are exact-arithmetic; e.g. offset+shift rounding to an integer in "
-              "binary64 is outside the theorems), integer/bool storage data types (a single float type is modelled), time "
-              "tensors whose shape differs from the observation's in a dimension of matching rank.")
+              "branches (and the in-place / out-of-place insert paths) agree, and that insert followed by select at the same time "
+              "returns the inserted value for every shipped matching extrapolation/interpolation pair (algebraic round trips proved "
+              "about the generated kernels); for all N, pointer positions, offsets, shapes, dt>0, 0<=tol<dt/2, and - by an invariant "
+              "over every run of pushes, pointer moves, selects and inserts - after every history.")
+LEVEL_NOTE = ("Trusted: Coq kernel + stdlib real axioms (sig_forall_dec, sig_not_dec, functional_extensionality_dep, classic); "
+              "translator for _unwind_ptr and the 6+8 interp/extrap kernels; the hand-written model C02/Select.v on top of C01/Ring.v "
+              "(validated against the real class by correspondence only: generator coverage); torch gather/scatter/where/round/"
+              "remainder modelled by their meaning; `x % 1` read as x - floor x; _unwind_tensor_ptr read as _unwind_ptr element-wise. "
+              "NOT proved: floating-point rounding (theorems are exact-arithmetic; e.g. with tolerance 0 a time one ulp off the grid "
+              "can make offset+shift round to an integer in binary64), integer/bool storage data types (a single float type is "
+              "modelled), time tensors whose shape differs from the observation's while having the right number of dimensions, "
+              "empty observations (nel = 0) for the out-of-place scalar insert.")
 HEADER = ("From Coq Require Import List ZArith Bool PrimFloat.\n"
           "From Inferno Require Import Base.NumF C01.Ring C02.Select C02.SelectExec.\n"
           "Import ListNotations.\nOpen Scope Z_scope.\n")
@@ -477,7 +481,7 @@ def compare(case, ti, tm):
 
 def run(ctx):
     rng = random.Random(ctx["seed"])
-    n = 260 if ctx["tier"] == "quick" else 4000
+    n = 260 if ctx["tier"] == "quick" else 3000
     cases = load_corpus() + gen_cases(rng, n)
     exhaustive = ctx["tier"] == "thorough"
     if exhaustive:
